@@ -24,6 +24,10 @@ PR(p, q, fl) == PRat(p, q, fl)
 PAdd3(a, b, c) == IAdd(a, IAdd(b, c))
 PPow(x, y, fl) == IF x[1] <= 0 THEN IZero ELSE ExpP(PMul(y, LnP(x, fl), fl), fl)
 PSqrt(x, fl) == PPow(x, PR(1, 2, fl), fl)
+(* sqrt(a^2 + b^2) of possibly tiny a, b: scaled into [1/2, 1) before squaring (fixed point has absolute precision) *)
+PHypot2(a, b, k, fl) == PScale2(PSqrt(IAdd(PSqr(PScale2(a, k), fl), PSqr(PScale2(b, k), fl)), fl), -k)
+PHypot(a, b, fl) == IF a[1] = 0 /\ b[1] = 0 THEN IZero
+                    ELSE PHypot2(a, b, LIMB_BITS * fl - BitLen(IMax(IAbs(a), IAbs(b))[2]), fl)
 PLerp(a, b, t, fl) == IAdd(a, PMul(t, ISub(b, a), fl))
 PClamp(x, lo, hi) == IF ILt(x, lo) THEN lo ELSE IF ILt(hi, x) THEN hi ELSE x
 PDyn(j, fl) == POfDy(Dy(j), fl)
@@ -76,7 +80,7 @@ RefForward3(p, ra, ga, ba, a, b, cosh2, fl) ==
   LET et == PDivInt(IAdd(cosh2, PR(38, 10, fl)), 4)
       A == PMul(p.nbb, PAdd3(IShl(ra, 1), ga, PDivInt(ba, 20)), fl)
       jroot == PPow(PDiv(A, p.aw, fl), PDivInt(PMul(p.c, p.z, fl), 2), fl)
-      t == PDiv(PMul(PMul(PMul(PR(50000, 13, fl), PMul(p.nc, p.nbb, fl), fl), et, fl), PSqrt(IAdd(PSqr(a, fl), PSqr(b, fl)), fl), fl),
+      t == PDiv(PMul(PMul(PMul(PR(50000, 13, fl), PMul(p.nc, p.nbb, fl), fl), et, fl), PHypot(a, b, fl), fl),
                 IAdd(PAdd3(ra, ga, PMul(PR(105, 100, fl), ba, fl)), PR(305, 1000, fl)), fl)
       alpha == PMul(PPow(t, PR(9, 10, fl), fl), PPow(ISub(PR(164, 100, fl), PPow(PR(29, 100, fl), p.n, fl)), PR(73, 100, fl), fl), fl)
       C == PMul(jroot, alpha, fl)
@@ -105,15 +109,19 @@ HueBitsP(a, b, sc, fl) ==
   IN IF ILt(mag, PEps(20, fl)) THEN 200                                \* (almost) achromatic: no direction to agree with
      ELSE IF dot[1] <= 0 THEN 0
      ELSE AgreeBits(cross, IZero, mag)
-(* a and b are differences of the three responses: their rounding noise is that of the responses, so chroma, colourfulness,
-   saturation (a square root of it) and hue are judged where |a| + |b| stands out of the responses by 2^-8 (f32 events) resp.
-   2^-30 (f64 events), i.e. for all but (numerically) achromatic colours; lightness and brightness always *)
-Chromatic(r, t) == ILe(IShr(r[8], IF t = "f32" THEN 8 ELSE 30), IAdd(IAbs(r[6]), IAbs(r[7])))
-RefBits3(r, full, sc, ch, fl) ==
+(* a and b are differences of the three responses: their rounding noise is that of the responses (a few units of the last
+   place of |R_a| + |G_a| + |B_a|), so the chroma, colourfulness, saturation and hue of a nearly achromatic colour cannot be
+   more accurate than that noise relative to |a| + |b|.  Loss = log2 of (|R_a| + |G_a| + |B_a|) / (|a| + |b|); the first
+   Free(t) bits of loss are covered by the margin of the threshold, every further bit of loss is credited to the chromatic
+   attributes (an achromatic colour, |a| + |b| = 0, is not judged on them at all); lightness and brightness always count *)
+Loss(r) == IF r[6][1] = 0 /\ r[7][1] = 0 THEN 999 ELSE BitLen(r[8][2]) - BitLen(IAdd(IAbs(r[6]), IAbs(r[7]))[2])
+Free(t) == IF t = "f32" THEN 5 ELSE 9
+Credit(r, t) == IF Loss(r) > Free(t) THEN Loss(r) - Free(t) ELSE 0
+RefBits3(r, full, sc, cr, fl) ==
   [ j |-> RelBitsP(r[1], full[1], fl), q |-> RelBitsP(r[3], full[4], fl),
-    c |-> IF ch THEN RelBitsP(r[2], full[2], fl) ELSE 200, m |-> IF ch THEN RelBitsP(r[4], full[5], fl) ELSE 200,
-    s |-> IF ch THEN RelBitsP(r[5], full[6], fl) ELSE 200, h |-> IF ch THEN HueBitsP(r[6], r[7], sc, fl) ELSE 200 ]
-RefBits2(r, full, sc, t, fl) == RefBits3(r, full, sc, Chromatic(r, t), fl)
+    c |-> RelBitsP(r[2], full[2], fl) + cr, m |-> RelBitsP(r[4], full[5], fl) + cr,
+    s |-> RelBitsP(r[5], full[6], fl) + cr, h |-> HueBitsP(r[6], r[7], sc, fl) + cr ]
+RefBits2(r, full, sc, t, fl) == RefBits3(r, full, sc, Credit(r, t), fl)
 RefBits1(e, hdeg, fl) ==
   RefBits2(RefForward(RefParams(e.vc, fl), [i \in 1..3 |-> PDyn(e.x[i], fl)], hdeg, fl),
            [i \in 1..6 |-> PDyn(e.full[i], fl)], SinCosP(hdeg, fl), e.t, fl)
